@@ -52,6 +52,8 @@ type Contract struct {
 	Uses     []*Clause // axiom instances assumed at entry
 	PostUses []*Clause // axiom instances assumed at every return
 	LoopUse  map[int][]*Clause
+	NiOuts    []*Clause // observable outputs of the non-interference obligation (default: the first result)
+	Secrets   []*Clause // non-interference: locations whose contents must not influence the result (two-run obligation)
 	Allocates []*Clause // callee side: the call allocates this many bytes up front (checked against the caller's alloc bounds)
 	Allocs   []*Clause // allocation-size bounds (C13): expression over n (element count) and esize
 }
@@ -88,7 +90,7 @@ func newContractSet() *ContractSet {
 	return &ContractSet{ByFunc: map[string]*Contract{}, Field: map[string]*Contract{}, Ghost: map[string]string{}, Macros: map[string]*Macro{}, ConstGlobals: map[string]bool{}, Protected: map[string]bool{}, FreshFalse: map[string]bool{}}
 }
 
-var reKind = regexp.MustCompile(`^(requires|ensures|modifies|decreases|invariant|assume|let|cover|allocates|alloc|use|postuse)(\[[A-Za-z0-9, ]+\])?(\([A-Za-z0-9_.\-]+\))?\s+(.*)$`)
+var reKind = regexp.MustCompile(`^(requires|ensures|modifies|decreases|invariant|assume|let|cover|allocates|alloc|use|postuse|secret|niout)(\[[A-Za-z0-9, ]+\])?(\([A-Za-z0-9_.\-]+\))?\s+(.*)$`)
 var reLoop = regexp.MustCompile(`^loop\s+(\d+)\s*:\s*(.*)$`)
 
 // qualify turns a short function name used in a contract file into the ssa
@@ -325,6 +327,10 @@ func (cs *ContractSet) ParseFile(path string, pkg string, external bool) error {
 				cur.Covers = append(cur.Covers, cl)
 			case cl.Kind == "alloc":
 				cur.Allocs = append(cur.Allocs, cl)
+			case cl.Kind == "secret":
+				cur.Secrets = append(cur.Secrets, cl)
+			case cl.Kind == "niout":
+				cur.NiOuts = append(cur.NiOuts, cl)
 			case cl.Kind == "allocates":
 				cur.Allocates = append(cur.Allocates, cl)
 			case loop > 0 && cl.Kind == "use":
@@ -372,5 +378,5 @@ func hasProp(ps []string, p string) bool {
 
 // onlyInline: the contract only marks the function as an inlinable leaf.
 func (c *Contract) onlyInline() bool {
-	return c.Inline && len(c.Requires) == 0 && len(c.Ensures) == 0 && len(c.Modifies) == 0
+	return c.Inline && len(c.Requires) == 0 && len(c.Ensures) == 0 && len(c.Modifies) == 0 && len(c.Secrets) == 0
 }
